@@ -56,6 +56,9 @@ type frameIn struct {
 	// defined: message of the package
 	Name    string `json:"name"`
 	Payload string `json:"payload"`
+	// batch: ids of earlier vec lines whose received messages are all kept and compared after the whole batch
+	IDs  []int  `json:"ids"`
+	Mode string `json:"mode"` // "one" connection | "parallel": several connections, readers in parallel
 	// tail: probe for the stream socket (observation only)
 	At    int `json:"at"`
 	Inner struct {
@@ -87,6 +90,10 @@ type frameOut struct {
 	Ctor    string `json:"ctor,omitempty"`    // what the constructor produced
 	SendErr string `json:"sendErr,omitempty"` // error of sendMessage
 	Infra   string `json:"infra,omitempty"`
+	// batch: messages kept while later frames were read, compared at the end
+	BatchN    int    `json:"batchN,omitempty"`
+	Corrupted int    `json:"corrupted,omitempty"`
+	FirstBad  string `json:"firstBad,omitempty"`
 	// tail probe: what the SECOND readMessage on the same connection returned
 	Second     string `json:"second,omitempty"`
 	SecondType int    `json:"secondType,omitempty"`
@@ -301,6 +308,94 @@ func runTail(v *frameIn, kind string) frameOut {
 	return out
 }
 
+// runBatch: the receive side as a sequence of reads.  Every frame is written and read as its own unit (write one,
+// read one), but the messages readMessage returned are KEPT and only compared with what was sent after the whole
+// batch has been read - on one connection, or on several connections with their readers running in parallel.
+func runBatch(v *frameIn, vecs map[int]*frameIn, kind string) frameOut {
+	out := frameOut{Kind: "batch", ID: v.ID, Net: kind + "/" + v.Mode, BadAt: -1, Outcome: "accept"}
+	var units []*frameIn
+	for _, id := range v.IDs {
+		if u := vecs[id]; u != nil {
+			units = append(units, u)
+		}
+	}
+	out.BatchN = len(units)
+	nconn := 1
+	if v.Mode == "parallel" {
+		nconn = 4
+	}
+	type held struct {
+		u *frameIn
+		m *hotrestart.VerifMessage
+	}
+	keep := make([][]held, nconn)
+	errs := make(chan string, nconn)
+	done := make(chan struct{}, nconn)
+	for k := 0; k < nconn; k++ {
+		k := k
+		go func() {
+			defer func() { done <- struct{}{} }()
+			w, r, err := sockPair(kind)
+			if err != nil {
+				errs <- err.Error()
+				return
+			}
+			defer w.Close()
+			defer r.Close()
+			for i := k; i < len(units); i += nconn {
+				u := units[i]
+				if err := put(w, wireBytes(u)); err != nil {
+					errs <- "write: " + err.Error()
+					return
+				}
+				m, rerr, pan, _ := guardedRead(r)
+				if pan != "" || rerr != nil || m == nil {
+					errs <- fmt.Sprintf("unit %d not accepted inside a batch: %v %s", u.ID, rerr, pan)
+					return
+				}
+				keep[k] = append(keep[k], held{u, m})
+			}
+		}()
+	}
+	for k := 0; k < nconn; k++ {
+		<-done
+	}
+	select {
+	case e := <-errs:
+		out.Outcome, out.Infra = "infra", e
+		return out
+	default:
+	}
+	for k := range keep {
+		for j, h := range keep[k] {
+			bad := ""
+			if int(h.m.Type) != h.u.Expect.Type || int(h.m.Len) != h.u.Expect.Len || len(h.m.Data) != h.u.Expect.Len {
+				bad = fmt.Sprintf("type=%d len=%d dataLen=%d", h.m.Type, h.m.Len, len(h.m.Data))
+			} else {
+				for i, x := range h.m.Data {
+					if x != fillByte(h.u.Fill, i) {
+						bad = fmt.Sprintf("payload byte %d is %d, sent %d", i, x, fillByte(h.u.Fill, i))
+						break
+					}
+				}
+			}
+			if bad != "" {
+				out.Corrupted++
+				if out.FirstBad == "" {
+					later := ""
+					if j+1 < len(keep[k]) {
+						n := keep[k][j+1].u
+						later = fmt.Sprintf("; the next frame read on that connection was type=%d declared=%d fill=%d", n.Type, n.Declared, n.Fill)
+					}
+					out.FirstBad = fmt.Sprintf("message %d of connection %d (unit type=%d declared=%d fill=%d, accepted when it was read) "+
+						"reads %s after the rest of the batch had been received%s", j+1, k+1, h.u.Type, h.u.Declared, h.u.Fill, bad, later)
+				}
+			}
+		}
+	}
+	return out
+}
+
 func readAll(c *net.UnixConn, n int, kind string) ([]byte, error) {
 	c.SetReadDeadline(time.Now().Add(3 * time.Second))
 	if kind == "unixpacket" {
@@ -402,13 +497,18 @@ func frames(args []string) error {
 		return err
 	}
 	defer w.Close()
+	vecs := map[int]*frameIn{}
 	return cli.ReadNDJSON(*in, func(line []byte) error {
 		var v frameIn
 		if err := json.Unmarshal(line, &v); err != nil {
 			return err
 		}
 		switch v.Kind {
+		case "batch":
+			return w.Write(runBatch(&v, vecs, *kind))
 		case "vec":
+			vv := v
+			vecs[v.ID] = &vv
 			return w.Write(runVec(&v, *kind))
 		case "tail":
 			return w.Write(runTail(&v, *kind))
